@@ -651,6 +651,70 @@ def d9_placeholders(ctx, js, rule='C11-D3'):
               'the structure %s is re-assembled as %s: a placeholder does not carry the position of its object in the list' % wrong[0] if wrong else '', js.loc(fa))
 
 
+class _Opened(Exception):
+    pass
+
+
+def _opened_name(mod, fdef, args, kwargs):
+    """run the extracted function up to the first file it opens (gzip.open / open are stubs that stop the run) and return (name, gzipped)"""
+    import copy as _copy
+    import os.path as _osp
+
+    def _stop(kind):
+        def opener(name, *a, **k):
+            raise _Opened((name, kind))
+        return opener
+
+    class _NS:
+        pass
+    gz_, os_, warn_ = _NS(), _NS(), _NS()
+    gz_.open = _stop('gz')
+    os_.path = _osp
+    warn_.warn = lambda *a, **k: None
+    fd = _copy.deepcopy(fdef)
+    fd.decorator_list = []
+    for a_ in fd.args.args + fd.args.kwonlyargs:
+        a_.annotation = None
+    fd.returns = None
+    glb = {'__builtins__': {'len': len, 'str': str, 'isinstance': isinstance, 'bool': bool, 'print': lambda *a, **k: None, 'open': _stop('plain'), 'ValueError': ValueError,
+                            'TypeError': TypeError, 'Exception': Exception, 'UserWarning': UserWarning, 'RuntimeWarning': RuntimeWarning, 'DeprecationWarning': DeprecationWarning, 'type': type, 'any': any, 'all': all, 'tuple': tuple, 'list': list},
+           'gzip': gz_, 'os': os_, 'warnings': warn_, 'create_json_string': lambda *a, **k: ''}
+    exec(compile(ast.fix_missing_locations(ast.Module(body=[fd], type_ignores=[])), '<%s>' % fdef.name, 'exec'), glb)
+    try:
+        glb[fdef.name](*args, **kwargs)
+    except _Opened as e:
+        return e.args[0]
+    return None
+
+
+def d11_file_names(ctx, js):
+    """writer and reader agree on the file a name stands for: for every name and both gz settings load_json opens the file dump_to_json wrote"""
+    rule = 'C11-D6'
+    key = 'json.py:dump_to_json/load_json#file-name'
+    w, r = js.func('dump_to_json'), js.func('load_json')
+    names = ['data', 'data.json', 'data.json.gz', 'data.gz', 'corr_b5.30_k0.1355', 'run.7', 'a.b.c', 'out.txt', 'dir.d/data', '.hidden', 'x.JSON', 'data.']
+    bad = []
+    try:
+        for nm in names:
+            for gz in (True, False):
+                a = _opened_name(js, w, ([], nm), {'gz': gz})
+                b = _opened_name(js, r, (nm,), {'gz': gz})
+                if a is None or b is None:
+                    raise Unrecognised('no file opened for %r (gz=%s): writer %s reader %s' % (nm, gz, a, b))
+                if a != b:
+                    bad.append((nm, gz, a[0], b[0]))
+    except _Opened:
+        raise
+    except Unrecognised:
+        raise
+    except Exception as e:
+        ctx.unrec(rule, key, 'cannot evaluate the file-name logic: %r' % e, js.loc(w))
+        return
+    ctx.check(rule, key, not bad, 'for %d names x gz on/off the reader opens the file the writer wrote (same suffix rule, same compression)' % len(names),
+              'name %r with gz=%s is written to %r but read from %r: names with a dot in them cannot be read back (or an older file of the other name is read silently)' % (
+                  bad[0] if bad else ('', '', '', '')), js.loc(w))
+
+
 def run(ctx):
     ctx.rule('C11-D1', 'emitted document is contained in the shipped schema')
     ctx.rule('C11-D2', 'writer/reader key and type-tag agreement')
@@ -670,6 +734,7 @@ def run(ctx):
     ctx.guarded('C11-D5', 'json@effects', d5_effects, ctx, js)
     ctx.guarded('C11-D6', 'json@transports', d6_transports, ctx, js)
     ctx.guarded('C11-D6', 'json@forwarding', d7_forwarding, ctx, js)
+    ctx.guarded('C11-D6', 'json@file-names', d11_file_names, ctx, js)
     from .. import unusedparams, leakedloop
     ctx.rule('C11-D7', 'every accepted option is read (no silently ignored parameter); no loop variable read after its loop')
     for mn_ in ('input.json', 'input.pandas', 'misc'):
